@@ -499,7 +499,11 @@ def trace_part(chk, tier):
         els = [i + 1 for i, kk in enumerate(d['kind']) if kk == 'e']
         targets = [0] + ([rng.choice(els)] if len(els) > 1 and rng.random() < 0.5 else [])
         jobs.append(('t%d' % k, d, asts, targets, None))
-    lines = trace.record_select(jobs)
+    trace.SPELL_SEED = common.SEED + 19      # the texts handed to the real select are random respellings of the ASTs (harness/sel.py)
+    try:
+        lines = trace.record_select(jobs)
+    finally:
+        trace.SPELL_SEED = None
     events = []
     out = []
     for l in lines:
